@@ -473,6 +473,11 @@ fn after_dispatch(sim: &Rc<Sim>, t: Timeout, ok: bool, err: Option<String>, t_st
             return;
         }
         sim.probe("dispatch_err_expected");
+        // idles belong to the first dispatch that returns Ok: a failed one runs none
+        if sim.st.borrow().idle_phase {
+            sim.violate("idle.in_failed_dispatch", vec![], "idle callbacks ran in a dispatch that returned an error".into());
+            return;
+        }
     }
     crate::life::after_dispatch(sim, ok, !waits.is_empty());
     if sim.is_dead() {
@@ -682,6 +687,13 @@ pub fn wait_hook(
                 break;
             }
         }
+        // a sleep of more than fifty years with nothing else to come is "for ever": the run does
+        // not jump there (64-bit nanoseconds end after 584 years), the wait just ends
+        const HORIZON: u64 = 50 * 31_557_600_000_000_000;
+        let wake_at = match wake_at {
+            Some(w) if w - now > HORIZON => None,
+            w => w,
+        };
         match (wake_at, next_env) {
             (None, None) => {
                 rec.would_block_forever = true;
@@ -959,6 +971,12 @@ pub fn event_end(sim: &Sim, _key: usize) {
                                 s.inserted = false;
                                 s.enabled = false;
                                 remove_key = s.reg_key;
+                                if s.sh.unwrapped.get() {
+                                    // the IO object was handed back: its fd can be inserted again
+                                    if let K::Generic(g) = &mut s.k {
+                                        g.released = true;
+                                    }
+                                }
                                 if let K::Trans(t) = &mut s.k {
                                     crate::transient::parent_registration(t, 2);
                                 }
